@@ -327,3 +327,227 @@ Theorem C02_bcdd_example :
   Some ([(3%positive, mkNode 0 [n1; tF] 0 0)], mkEdge (RN 3) false).
 Proof. exact (conj ex_bcdd_bcok (conj ex_bcdd_cache_ok (conj eac_lossy (conj enc_lossy ex_c_and)))). Qed.
 Print Assumptions C02_bcdd_example.
+
+(** ** The ZBDD kind (package C02z; model DD/ZbddBool.v, proofs DD/ZbddBoolProofs.v,
+       DD/ZbddXorProofs.v, DD/ZbddIteProofs.v, DD/ZbddEvalProofs.v; set operations: C09)
+
+    Reading.  [zview_of s r c] is the Boolean view of a ZBDD edge over all levels of the manager
+    ([semz] from level 0 with fuel [S nlevels] = C09_bool_view of its family), [zbfun_of s r] the
+    same as a function of assignments variable |-> bool.  [ZChainOK s] = the tautology chain
+    ([ZBDDCache::tautology]) is in the table, decided by [zchain_ok_b]; [ZCacheOKB] = every entry
+    the apply cache can serve is correct (all nine operator codes); [zlossy] = the only
+    assumption on the cache implementation. *)
+From OxiVerif Require Import DD.TableExtra DD.CanonZbdd DD.FamSpec DD.FamSpecProofs DD.ZbddOps DD.ZbddOpsProofs
+  DD.ZbddSubsetProofs DD.ZbddSoundProofs DD.ZbddVars DD.ZbddVarsProofs DD.ZbddExamples
+  DD.ZbddBool DD.ZbddBoolProofs DD.ZbddXorProofs DD.ZbddIteProofs DD.ZbddEvalProofs DD.ZbddBoolExamples.
+
+(** the tautology chain: [taut(l)] as looked up in the unique table denotes all subsets of
+    the levels [l, n) - in the Boolean view: true iff all levels above [l] are false *)
+Theorem C02_zbdd_taut_den : forall s l t, ZbddOK s -> ztaut s l = Some t ->
+  ZDen s t (fun S => incr_from (Nat.min l (nlevels s)) S /\ Forall (fun x => x < nlevels s) S).
+Proof. exact ztaut_den. Qed.
+Print Assumptions C02_zbdd_taut_den.
+
+(** ... and whatever edge denotes that family is the one the lookup returns (canonicity), so the
+    lookup agrees with the edges the manager stores in [ZBDDCache] *)
+Theorem C02_zbdd_taut_canon : forall s l t, ZbddOK s -> l <= nlevels s ->
+  ZDen s t (fun S => incr_from l S /\ Forall (fun x => x < nlevels s) S) -> ztaut s l = Some t.
+Proof. exact ztaut_of_den. Qed.
+Print Assumptions C02_zbdd_taut_canon.
+
+(** the chain is complete after [add_vars] / [post_reorder_mut] (model of C09) and is the chain
+    that model built; it survives every extension of the table *)
+Theorem C02_zbdd_chain_after_add_vars : forall s k, ZbddOK s ->
+  exists s' ch, zadd_vars s k = Some (s', ch) /\ ZbddOK s' /\ zchain_ok_b s' = true /\
+    nlevels s' = nlevels s + k /\ forall l, l <= nlevels s' -> ztaut s' l = nth_error ch l.
+Proof. exact zchain_after_add_vars. Qed.
+Print Assumptions C02_zbdd_chain_after_add_vars.
+
+Theorem C02_zbdd_chain_extends : forall s s', ZbddOK s -> ZbddOK s' -> extends s s' ->
+  zchain_ok_b s = true -> zchain_ok_b s' = true.
+Proof. exact zchain_extends. Qed.
+Print Assumptions C02_zbdd_chain_extends.
+
+Theorem C02_zbdd_chain_total : forall s l, zchain_ok_b s = true -> exists t, ztaut s l = Some t.
+Proof. exact ztaut_total. Qed.
+Print Assumptions C02_zbdd_chain_total.
+
+(** the family of the result of each connective (the reading of C09): and = intsec, or = union,
+    xor = symmetric difference, imp_strict f g = g \ f, nand / nor / equiv = complement w.r.t. all
+    subsets, imp = ite(f, g, all subsets) *)
+Theorem C02_zbdd_apply_op_families : forall gt C cget cadd, zlossy C cget cadd ->
+  forall op fuel s (c : C) f g P Q,
+  ZbddOK s -> zchain_ok_b s = true -> ZCacheOKB C cget s c -> ZDen s f P -> ZDen s g Q -> nlevels s < fuel ->
+  exists s' c' r, zapply_op gt C cget cadd fuel s c op f g = Some (s', c', r) /\
+    ZbddOK s' /\ extends s s' /\ ZCacheOKB C cget s' c' /\
+    ZDen s' r (pop (nlevels s) op P Q).
+Proof. exact zapply_op_ok. Qed.
+Print Assumptions C02_zbdd_apply_op_families.
+
+(** not *)
+Theorem C02_zbdd_not_sound : forall gt C cget cadd, zlossy C cget cadd ->
+  forall fuel s (c : C) f,
+  ZbddOK s -> zchain_ok_b s = true -> ZCacheOKB C cget s c -> ref_ok s f -> S (nlevels s) <= fuel ->
+  exists s' c' r, zapply_not gt C cget cadd fuel s c f = Some (s', c', r) /\
+    (ZbddOK s' /\ zchain_ok_b s' = true /\ extends s s' /\ ZCacheOKB C cget s' c' /\ ref_ok s' r) /\
+    forall c0, choice_ok s c0 ->
+      exists bf, zview_of s f c0 = Some bf /\ zview_of s' r c0 = Some (negb bf).
+Proof. exact zapply_not_sound. Qed.
+Print Assumptions C02_zbdd_not_sound.
+
+(** and, or, nand, nor, xor, equiv, imp, imp_strict: pointwise the propositional connective *)
+Theorem C02_zbdd_apply_op_sound : forall gt C cget cadd, zlossy C cget cadd ->
+  forall op fuel s (c : C) f g,
+  ZbddOK s -> zchain_ok_b s = true -> ZCacheOKB C cget s c -> ref_ok s f -> ref_ok s g ->
+  S (nlevels s) <= fuel ->
+  exists s' c' r, zapply_op gt C cget cadd fuel s c op f g = Some (s', c', r) /\
+    (ZbddOK s' /\ zchain_ok_b s' = true /\ extends s s' /\ ZCacheOKB C cget s' c' /\ ref_ok s' r) /\
+    forall c0, choice_ok s c0 ->
+      exists bf bg, zview_of s f c0 = Some bf /\ zview_of s g c0 = Some bg /\
+        zview_of s' r c0 = Some (eval_bop op bf bg).
+Proof. exact zapply_op_sound. Qed.
+Print Assumptions C02_zbdd_apply_op_sound.
+
+(** ite with its terminal short-cuts (incl. the level-dependent tautology cases) *)
+Theorem C02_zbdd_apply_ite_sound : forall gt C cget cadd, zlossy C cget cadd ->
+  forall fuel s (c : C) f g h,
+  ZbddOK s -> zchain_ok_b s = true -> ZCacheOKB C cget s c -> ref_ok s f -> ref_ok s g -> ref_ok s h ->
+  S (nlevels s) <= fuel ->
+  exists s' c' r, zapply_ite gt C cget cadd fuel s c f g h = Some (s', c', r) /\
+    (ZbddOK s' /\ zchain_ok_b s' = true /\ extends s s' /\ ZCacheOKB C cget s' c' /\ ref_ok s' r) /\
+    forall c0, choice_ok s c0 ->
+      exists bf bg bh, zview_of s f c0 = Some bf /\ zview_of s g c0 = Some bg /\ zview_of s h c0 = Some bh /\
+        zview_of s' r c0 = Some (if bf then bg else bh).
+Proof. exact zapply_ite_sound. Qed.
+Print Assumptions C02_zbdd_apply_ite_sound.
+
+(** the same in terms of assignments and the spec layer DD/Sem.v *)
+Theorem C02_zbdd_not_bfun : forall gt C cget cadd, zlossy C cget cadd ->
+  forall s (c : C) f,
+  ZbddOK s -> zchain_ok_b s = true -> ZCacheOKB C cget s c -> ref_ok s f ->
+  exists s' c' r, zapply_not gt C cget cadd (S (nlevels s)) s c f = Some (s', c', r) /\
+    (ZbddOK s' /\ zchain_ok_b s' = true /\ extends s s' /\ ZCacheOKB C cget s' c' /\ ref_ok s' r) /\
+    forall a, zbfun_of s' r a = lift1 negb (zbfun_of s f) a.
+Proof. exact zapply_not_bfun. Qed.
+Print Assumptions C02_zbdd_not_bfun.
+
+Theorem C02_zbdd_apply_op_bfun : forall gt C cget cadd, zlossy C cget cadd ->
+  forall op s (c : C) f g,
+  ZbddOK s -> zchain_ok_b s = true -> ZCacheOKB C cget s c -> ref_ok s f -> ref_ok s g ->
+  exists s' c' r, zapply_op gt C cget cadd (S (nlevels s)) s c op f g = Some (s', c', r) /\
+    (ZbddOK s' /\ zchain_ok_b s' = true /\ extends s s' /\ ZCacheOKB C cget s' c' /\ ref_ok s' r) /\
+    forall a, zbfun_of s' r a = lift2 op (zbfun_of s f) (zbfun_of s g) a.
+Proof. exact zapply_op_bfun. Qed.
+Print Assumptions C02_zbdd_apply_op_bfun.
+
+Theorem C02_zbdd_apply_ite_bfun : forall gt C cget cadd, zlossy C cget cadd ->
+  forall s (c : C) f g h,
+  ZbddOK s -> zchain_ok_b s = true -> ZCacheOKB C cget s c -> ref_ok s f -> ref_ok s g -> ref_ok s h ->
+  exists s' c' r, zapply_ite gt C cget cadd (S (nlevels s)) s c f g h = Some (s', c', r) /\
+    (ZbddOK s' /\ zchain_ok_b s' = true /\ extends s s' /\ ZCacheOKB C cget s' c' /\ ref_ok s' r) /\
+    forall a, zbfun_of s' r a = ite_s (zbfun_of s f) (zbfun_of s g) (zbfun_of s h) a.
+Proof. exact zapply_ite_bfun. Qed.
+Print Assumptions C02_zbdd_apply_ite_bfun.
+
+(** constants ([f_edge] = Empty, [t_edge] = taut(0)), variables ([var_edge] with its don't-care
+    nodes above), negated variables ([not_var_edge] = not of [var_edge]) *)
+Theorem C02_zbdd_const_bfun : forall s b, ZbddOK s -> zchain_ok_b s = true ->
+  exists r, zconst s b = Some r /\ ref_ok s r /\ forall a, zbfun_of s r a = const_s b a.
+Proof. exact zconst_bfun. Qed.
+Print Assumptions C02_zbdd_const_bfun.
+
+Theorem C02_zbdd_var_bfun : forall s var, ZbddOK s -> zchain_ok_b s = true -> var < nlevels s ->
+  exists s' r, zvar s var = Some (s', r) /\ ZbddOK s' /\ zchain_ok_b s' = true /\ extends s s' /\ ref_ok s' r /\
+    forall a, zbfun_of s' r a = var_s var a.
+Proof. exact zvar_bfun. Qed.
+Print Assumptions C02_zbdd_var_bfun.
+
+Theorem C02_zbdd_not_var_bfun : forall gt C cget cadd, zlossy C cget cadd ->
+  forall s (c : C) var,
+  ZbddOK s -> zchain_ok_b s = true -> ZCacheOKB C cget s c -> var < nlevels s ->
+  exists s' c' r, znot_var gt C cget cadd (S (nlevels s)) s c var = Some (s', c', r) /\
+    (ZbddOK s' /\ zchain_ok_b s' = true /\ extends s s' /\ ZCacheOKB C cget s' c' /\ ref_ok s' r) /\
+    forall a, zbfun_of s' r a = negb (var_s var a).
+Proof. exact znot_var_bfun. Qed.
+Print Assumptions C02_zbdd_not_var_bfun.
+
+(** the result is the only edge with its view: an edge [d] of the (earlier) table with the same
+    view is the edge the model returns - what the correspondence run relies on when it replays an
+    operation on a snapshot that already contains the real result *)
+Theorem C02_zbdd_result_unique : forall s s' r d, ZbddOK s -> ZbddOK s' -> extends s s' ->
+  ref_ok s' r -> ref_ok s d ->
+  (forall c0, choice_ok s c0 -> zview_of s' r c0 = zview_of s d c0) -> r = d.
+Proof. exact zresult_unique. Qed.
+Print Assumptions C02_zbdd_result_unique.
+
+(** two runs of an operator with different caches, operand orders and fuel denote the same function *)
+Theorem C02_zbdd_apply_op_history_independent :
+  forall gt C cget cadd, zlossy C cget cadd -> forall gt2 (C2 : Type) cget2 cadd2, zlossy C2 cget2 cadd2 ->
+  forall op fuel fuel2 s (c : C) (c2 : C2) f g s1 c1 r1 s2 c2' r2,
+  ZbddOK s -> zchain_ok_b s = true -> ZCacheOKB C cget s c -> ZCacheOKB C2 cget2 s c2 ->
+  ref_ok s f -> ref_ok s g -> S (nlevels s) <= fuel -> S (nlevels s) <= fuel2 ->
+  zapply_op gt C cget cadd fuel s c op f g = Some (s1, c1, r1) ->
+  zapply_op gt2 C2 cget2 cadd2 fuel2 s c2 op f g = Some (s2, c2', r2) ->
+  forall c0, choice_ok s c0 -> zview_of s1 r1 c0 = zview_of s2 r2 c0.
+Proof. exact zapply_op_history_independent. Qed.
+Print Assumptions C02_zbdd_apply_op_history_independent.
+
+(** canonicity in terms of views (C01 for ZBDD references) *)
+Theorem C02_zbdd_view_canon : forall s r1 r2, ZbddOK s -> ref_ok s r1 -> ref_ok s r2 ->
+  (forall c, choice_ok s c -> zview_of s r1 c = zview_of s r2 c) -> r1 = r2.
+Proof. exact zview_canon. Qed.
+Print Assumptions C02_zbdd_view_canon.
+
+(** eval: the walk with the level-indexed bit set and the [ones] counter computes the
+    node-by-node interpretation and never underflows: started with [ones] = [k] + the number of
+    set bits from [lvl] on it returns "[k] = 0 and the view from [lvl] holds" *)
+Theorem C02_zbdd_eval_walk_sem : forall s, ZbddOK s -> forall fuel lvl r values k,
+  ref_ok s r -> lvl <= rlevel s r -> nlevels s - rlevel s r < fuel ->
+  exists b, semz s fuel lvl r (cv values) = Some b /\
+    zeval_walk fuel s r values (k + length (true_levels (cv values) lvl (nlevels s - lvl)))
+      = Some (Nat.eqb k 0 && b).
+Proof. exact zeval_walk_sem. Qed.
+Print Assumptions C02_zbdd_eval_walk_sem.
+
+Theorem C02_zbdd_eval_edge_assignment : forall s r (a : asg) args, ZbddOK s -> ref_ok s r ->
+  (forall v b, In (v, b) args -> b = a v /\ v < nlevels s) ->
+  (forall v, v < nlevels s -> In v (map fst args)) ->
+  zeval_edge s r args = Some (zbfun_of s r a).
+Proof. exact zeval_edge_assignment. Qed.
+Print Assumptions C02_zbdd_eval_edge_assignment.
+
+(** cofactors: the children of the root = (subset1, subset0) w.r.t. the top-most variable in the
+    reduced-domain reading: as families, and literally what the C09 model of subset1 / subset0
+    returns for that variable *)
+Theorem C02_zbdd_cofactors : forall C cget cadd s (c : C) r t e, ZbddOK s -> ref_ok s r ->
+  zcofactors s r = Some (t, e) ->
+  exists id nd var F Ft Fe,
+    r = RN id /\ find_node s id = Some nd /\ rlevel s r = nlevel nd /\
+    nth_error (s_l2v s) (nlevel nd) = Some var /\ nth_error (s_v2l s) var = Some (nlevel nd) /\
+    ref_ok s t /\ ref_ok s e /\
+    fam_of s r = Some F /\ fam_of s t = Some Ft /\ fam_of s e = Some Fe /\
+    feq Ft (f_subset1 (nlevel nd) F) /\ feq Fe (f_subset0 (nlevel nd) F) /\
+    (forall fuel, zsubset_top C cget cadd (S fuel) s c ZSubset1 r var = Some (s, c, t)) /\
+    (forall fuel, zsubset_top C cget cadd (S fuel) s c ZSubset0 r var = Some (s, c, e)).
+Proof. exact zcofactors_sound. Qed.
+Print Assumptions C02_zbdd_cofactors.
+
+Theorem C02_zbdd_cofactors_none : forall s r, ZbddOK s -> ref_ok s r ->
+  (zcofactors s r = None <-> exists t, r = RT t).
+Proof. exact zcofactors_none. Qed.
+Print Assumptions C02_zbdd_cofactors_none.
+
+(** the hypotheses are satisfiable (a four-level table, order var -> level [1;2;0;3]); the cache
+    instances of the correspondence run are lossy and start valid; the model runs *)
+Theorem C02_zbdd_example :
+  ZbddOK ex_z4 /\ zchain_ok_b ex_z4 = true /\
+  (forall s, ZCacheOKB zacache zac_get s []) /\ (forall s c, ZCacheOKB unit znc_get s c) /\
+  zlossy zacache zac_get zac_add /\ zlossy unit znc_get znc_add.
+Proof. exact (conj ex_z4_ok (conj ex_z4_chain (conj zac_empty_okB (conj znc_okB (conj zac_lossy znc_lossy))))). Qed.
+Print Assumptions C02_zbdd_example.
+
+Definition C02_pin_zbdd_run_not := ex_z4_not.
+Definition C02_pin_zbdd_run_ops := ex_z4_ops.
+Definition C02_pin_zbdd_run_ite := ex_z4_ite.
+Definition C02_pin_zbdd_run_vars := ex_z4_vars.
+Definition C02_pin_zbdd_run_eval := ex_z4_eval.
